@@ -85,9 +85,8 @@ def xor_pairs(fn):
     for s, flds, _r in _xor_sites(fn):
         rhs = s["r"]["r"]
         idx = {x[2] for x in vf.producers(fn, rhs) if x[0] == "field" and x[1] == "()"}
-        if len(idx) != 1:
-            idx2 = {x[2] for x in fl.of_operand(rhs) if x[0] == "field" and x[1] == "()"}
-            idx = idx2 if len(idx2) == 1 else set()
+        if len(idx) != 1 or not any(x[0] == "call" and x[1].endswith("private_ctx_xor_keys") for x in vf.producers(fn, rhs)):
+            idx = set()  # not readable off the operand (e.g. iterator form): the pairing is then not decided
         for f_ in flds:
             out[f_] = next(iter(idx)) if len(idx) == 1 else None
     return out
@@ -433,7 +432,8 @@ def run(ctx):
     ffz = ctx.fn(fz)
     if ffz:
         # every Ok return of finalize_tx passed a delete_private_context call
-        de = c.after_call_edges(ffz, c.WOB + "delete_private_context")
+        # (through helpers too: any call whose effect summary contains delete_private_context)
+        de = {(b, ffz.bbs[b]["t"]["t"]) for b in ctx.eff.effect_blocks(ffz, {"delete_private_context"}) if ffz.bbs[b]["t"].get("t") is not None}
         h = bool(de) and cfg.must_pass(ffz, de, cfg.return_blocks(ffz), cut_nodes=cfg.error_return_blocks(ffz))[0]
         run.instance(R8, {"fn": "foreign::finalize_tx", "obligation": "Ok is returned only after delete_private_context (both arms)"}, held=h)
         if not h:
